@@ -588,3 +588,27 @@ CHECKS["C13"]["required_classes"]["all"] = CHECKS["C13"].get("required_classes",
 CHECKS["C15"]["required_classes"]["all"] = CHECKS["C15"].get("required_classes", {}).get("all", []) + ["store-degraded-while-agent-runs", "traced-noop-request-with-admin-session"]
 CHECKS["C17"]["jobs"].append(J("running-agent", VBB, "TestC17RunningAgent", {"shards": 6, "checks": 6}, {"shards": 16, "checks": 200}))
 CHECKS["C17"]["required_classes"]["all"] = CHECKS["C17"].get("required_classes", {}).get("all", []) + ["c17-running:write-after-reload", "c17-running:refused", "c17-running:accepted"]
+
+# round 3: what the added jobs explore (appended to the descriptions that go into MANIFEST / evidence)
+_R3 = {
+    "C01": (" Plus rounds of overlapping adds / updates of one user through several handles (the password that works afterwards is one acknowledged in that round) and an exhaustive small-scope job (all histories up to length 3).",
+            "; overlapping-writes campaign with a linearization oracle; exhaustive small-scope enumeration"),
+    "C02": (" Every case ends with writes of an unrelated user under a watchdog (no hang); the same generators also run with GOMAXPROCS=1.", "; watchdog for hangs; single-CPU re-run"),
+    "C04": (" The black-box job changes the store between probes (update / remove / re-add / set-admin through the library, the CLI or the web API), probes old and new credentials on every frontend around each change, and finally fires all probes concurrently.",
+            "; management operations interleaved with probes; concurrent probe phase"),
+    "C05": (" End-of-stream is probed to be a real close (a write after EOF must fail).", ""),
+    "C07": (" Nonces shortened at the byte level on tokens whose nonce begins / ends with 0x00 / 0xff; identity of each token under concurrent issuance.", "; targeted generation of boundary nonces"),
+    "C08": (" A second tracer job stops a READER process (authenticate / exists / list) at every one of its system-call boundaries and lets a complete update of the record it reads happen there (same password, other parameter set): the reader must see the complete old or the complete new record.",
+            "; reader-side schedule enumeration at system-call granularity (harness-owned interleaving)"),
+    "C10": (" The hooks directory changes mode at run time, followed by more changes than any notification buffer holds.", ""),
+    "C11": (" Stores of 70-300 users with listings overlapping admin-flag changes.", ""),
+    "C12": (" Remote mode with a master outage of N calls followed by recovery: once reachable, the master's copy must be upgraded.", "; outage-then-recovery histories"),
+    "C13": (" Sequences of encodes in one process with writers failing part-way: every later message still encodes to the reference bytes.", "; seeded stateful encode campaign with failing writers"),
+    "C14": (" argon2id tags up to 6000 bytes (record lines over 4096 bytes); the record job also runs with GOMAXPROCS=1.", ""),
+    "C15": (" The traced agent's store is degraded while it runs and it receives authorised no-op requests: no mutating system call may follow.", ""),
+    "C17": (" Black-box running agent: web API writes before and after SIGHUP reloads (successful and failed).", "; black-box reload histories"),
+    "C20": (" Invalid timeout option values before and after the valid one.", ""),
+}
+for _k, (_lt, _te) in _R3.items():
+    CHECKS[_k]["level_text"] += _lt
+    CHECKS[_k]["technique"] += _te
